@@ -294,6 +294,10 @@ struct NameCase {
     functions: Vec<String>,
     /// probes: (is_symbol, name)
     lookups: Vec<(bool, String)>,
+    /// symbol names registered again, with a new value, through one later `with_symbols` table (which also brings
+    /// `filler` fresh names, so the table may be larger or smaller than what was registered before)
+    reregistered: Vec<String>,
+    filler: usize,
 }
 
 const NAMES: [&str; 10] = ["s", "S", "s_", "ss", "s1", "facts", "t", "st", "s2", "x"];
@@ -306,13 +310,27 @@ fn random_names(bytes: &[u8]) -> NameCase {
     let functions = (0..nf).map(|_| d.pick(&NAMES).to_string()).collect();
     let nl = 1 + d.below(6);
     let lookups = (0..nl).map(|_| (d.bool(), d.pick(&NAMES).to_string())).collect();
-    NameCase { symbols, functions, lookups }
+    let nr = d.below(3);
+    let reregistered = (0..nr).map(|_| d.pick(&NAMES).to_string()).collect();
+    NameCase { symbols, functions, lookups, reregistered, filler: d.below(6) }
 }
 
 fn check_names(c: &NameCase) -> Verdict {
     let mut symbols = BTreeMap::new();
     for s in &c.symbols {
         symbols.insert(s.clone(), Value::String(format!("symbol#{s}")));
+    }
+    // expected table after the later re-registration
+    let mut expected = symbols.clone();
+    let mut second: Vec<(String, Value)> = vec![];
+    for s in &c.reregistered {
+        second.push((s.clone(), Value::String(format!("symbol#{s}#again"))));
+    }
+    for i in 0..c.filler {
+        second.push((format!("filler{i}"), Value::Int(i as i128)));
+    }
+    for (k, v) in &second {
+        expected.insert(k.clone(), v.clone());
     }
     let mut fns = BTreeMap::new();
     for f in &c.functions {
@@ -323,14 +341,42 @@ fn check_names(c: &NameCase) -> Verdict {
     for (is_sym, name) in &c.lookups {
         let e = if *is_sym { Expr::symbol(name) } else { Expr::func(name.clone(), Expr::value(1)) };
         let case = EvalCase { expr: e, facts: input.clone(), fns: fns.clone(), symbols: symbols.clone() };
-        let (r, _) = match crate::core::catch(|| crate::probe::eval_in_ruleset(&case.expr, &case.facts, &case.fns, &case.symbols)) {
+        let r = match crate::core::catch(|| {
+            if second.is_empty() {
+                crate::probe::eval_in_ruleset(&case.expr, &case.facts, &case.fns, &case.symbols).0
+            } else {
+                // symbols one by one, then the second table through with_symbols
+                let spec = crate::probe::SetSpec { rules: vec![("r".into(), case.expr.clone())], fns: fns.clone(), symbols: BTreeMap::new(), suspend: 0 };
+                let _ = spec;
+                let mut b = ruleset();
+                for (k, v) in &symbols {
+                    b = b.with_symbol(k, v.clone());
+                }
+                b = b.with_symbols(Symbols::from(second.clone())).expect("with_symbols");
+                for (name, fs) in &fns {
+                    b = b
+                        .with_function(crate::probe::Probe {
+                            name: crate::probe::intern(name),
+                            spec: fs.clone(),
+                            suspend: 0,
+                            log: Default::default(),
+                            counts: Default::default(),
+                            tokio_yield: false,
+                        })
+                        .expect("function");
+                }
+                let rs = b.with_rule(Rule::new("r", BTreeMap::new(), case.expr.clone())).expect("rule").build();
+                let mut out = crate::core::block_on(rs.evaluate_value(&case.facts)).expect("evaluate_value");
+                out.pop().expect("one outcome").value
+            }
+        }) {
             Ok(x) => x,
             Err(p) => return Err(Issue::new("name:panic", format!("panic {p}; case {}", case.render()))),
         };
         let ok = if *is_sym {
-            match (symbols.contains_key(name), &r) {
-                (true, Ok(v)) => same_value(v, &Value::String(format!("symbol#{name}")), true),
-                (false, Err(reval::Error::InvalidSymbol(n))) => n == name,
+            match (expected.get(name), &r) {
+                (Some(want), Ok(v)) => same_value(v, want, true),
+                (None, Err(reval::Error::InvalidSymbol(n))) => n == name,
                 _ => false,
             }
         } else {
@@ -344,9 +390,11 @@ fn check_names(c: &NameCase) -> Verdict {
             return Err(Issue::new(
                 format!("name:{}", if *is_sym { "symbol" } else { "function" }),
                 format!(
-                    "{} {name:?} resolved wrongly: registered symbols {:?}, functions {:?}; implementation {}",
+                    "{} {name:?} resolved wrongly: registered symbols {:?} then re-registered {:?} (+{} fresh names) through with_symbols, functions {:?}; implementation {}",
                     if *is_sym { "symbol" } else { "function" },
                     c.symbols,
+                    c.reregistered,
+                    c.filler,
                     c.functions,
                     me::show_actual(&r)
                 ),
@@ -358,7 +406,7 @@ fn check_names(c: &NameCase) -> Verdict {
 
 impl NameCase {
     fn to_json(&self) -> serde_json::Value {
-        serde_json::json!({"symbols": self.symbols, "functions": self.functions,
+        serde_json::json!({"symbols": self.symbols, "functions": self.functions, "reregistered": self.reregistered, "filler": self.filler,
             "lookups": self.lookups.iter().map(|(s, n)| serde_json::json!([s, n])).collect::<Vec<_>>()})
     }
     fn from_json(j: &serde_json::Value) -> Option<Self> {
@@ -374,6 +422,8 @@ impl NameCase {
                 .iter()
                 .map(|x| Some((x.get(0)?.as_bool()?, x.get(1)?.as_str()?.to_string())))
                 .collect::<Option<Vec<_>>>()?,
+            reregistered: strs("reregistered").unwrap_or_default(),
+            filler: j.get("filler").and_then(|x| x.as_u64()).unwrap_or(0) as usize,
         })
     }
 }
